@@ -81,17 +81,38 @@ func protoOf(modern bool) gproto.Protocol {
 
 // ---------- effects recorded by the fakes ----------
 
+// The recorder keeps effects as thunks: byte slices handed to the fakes are NOT copied when the effect
+// happens but printed when the case (or the whole history) is over — what a consumer that writes later sees.
 type recorder struct {
 	mu  sync.Mutex
-	eff []string
+	eff []func() string
 	n   map[string]int
 }
 
-func (r *recorder) add(kind, term string) {
+func (r *recorder) add(kind, term string) { r.addLazy(kind, func() string { return term }) }
+
+func (r *recorder) addLazy(kind string, term func() string) {
 	r.mu.Lock()
 	r.eff = append(r.eff, term)
 	r.n[kind]++
 	r.mu.Unlock()
+}
+
+func (r *recorder) count() int {
+	r.mu.Lock()
+	defer r.mu.Unlock()
+	return len(r.eff)
+}
+
+// terms prints the effects [from, to)
+func (r *recorder) terms(from, to int) []string {
+	r.mu.Lock()
+	defer r.mu.Unlock()
+	out := make([]string, 0, to-from)
+	for _, f := range r.eff[from:to] {
+		out = append(out, f())
+	}
+	return out
 }
 
 func plain(c component.Component) string {
@@ -142,11 +163,12 @@ func (c *fakeConn) WritePacket(p gproto.Packet) error {
 		c.w.rec.add("weird", "EOracleMiss")
 		return nil
 	}
+	data, owner := m.Data, c.owner.name // the slice as handed over, not a copy
 	switch m.Channel {
 	case "bungeecord:main":
-		c.w.rec.add("response", lib.App("EResponse", lib.Str(c.owner.name), "true", lib.Bytes(m.Data)))
+		c.w.rec.addLazy("response", func() string { return lib.App("EResponse", lib.Str(owner), "true", lib.Bytes(data)) })
 	case "BungeeCord":
-		c.w.rec.add("response", lib.App("EResponse", lib.Str(c.owner.name), "false", lib.Bytes(m.Data)))
+		c.w.rec.addLazy("response", func() string { return lib.App("EResponse", lib.Str(owner), "false", lib.Bytes(data)) })
 	default:
 		c.w.rec.add("weird", "EOracleMiss")
 	}
@@ -182,7 +204,8 @@ func (s *fakeServer) BroadcastPluginMessage(id message.ChannelIdentifier, data [
 		s.w.rec.add("weird", "EOracleMiss")
 		return
 	}
-	s.w.rec.add("forward", lib.App("EForward", lib.Str(s.s.name), lib.Bytes(data)))
+	name := s.s.name
+	s.w.rec.addLazy("forward", func() string { return lib.App("EForward", lib.Str(name), lib.Bytes(data)) })
 }
 func (s *fakeServer) Connect(p bungeecord.Player) {
 	s.w.rec.add("connect", lib.App("EConnect", lib.Str(p.Username()), lib.Str(s.s.name)))
@@ -438,7 +461,10 @@ func decodeOracle(sub string, texts []string) string {
 
 // ---------- adapter layer ----------
 
-func runAdapter(st *stateSt, req int, target string, payload []byte) (string, int, int) {
+// runAdapter sends one Forward request per payload. With gated = true every player connection blocks in
+// WritePacket until all requests have been processed (deterministic: a closed channel releases them).
+func runAdapter(st *stateSt, req int, target string, payloads [][]byte, gated bool) (string, int, int) {
+	gate := make(chan struct{})
 	w := proxy.VerifC26NewWorld()
 	for _, s := range st.servers {
 		w.AddServer(s.name, &net.TCPAddr{IP: s.ip, Port: s.port})
@@ -452,17 +478,27 @@ func runAdapter(st *stateSt, req int, target string, payload []byte) (string, in
 		c := pmsg.NewConn(2*i, state.Play, version.Minecraft_1_20_2.Protocol)
 		b := pmsg.NewConn(2*i+1, state.Play, protoOf(p.modern))
 		c.Hook, b.Hook = hook, hook
+		if gated {
+			c.Gate, b.Gate = gate, gate
+		}
 		conns[i] = pc{c, b}
 		w.AddPlayer(p.name, p.id, c, p.server, b)
 	}
-	buf := new(bytes.Buffer)
-	utf(buf, "Forward")
-	utf(buf, target)
-	buf.Write(payload)
-	func() {
-		defer func() { _ = recover() }()
-		w.Responder(st.players[req].name).Process(&plugin.Message{Channel: "BungeeCord", Data: buf.Bytes()})
-	}()
+	resp := w.Responder(st.players[req].name)
+	for _, payload := range payloads {
+		buf := new(bytes.Buffer)
+		utf(buf, "Forward")
+		utf(buf, target)
+		buf.Write(payload)
+		func() {
+			defer func() { _ = recover() }()
+			resp.Process(&plugin.Message{Channel: "BungeeCord", Data: buf.Bytes()})
+		}()
+	}
+	if gated {
+		time.Sleep(5 * time.Millisecond) // let the delivery goroutines reach the gate, then open it
+	}
+	close(gate)
 	// BroadcastPluginMessage writes from one goroutine per player: wait until nothing has changed for 25 ms
 	last, since := -1, time.Now()
 	for deadline := time.Now().Add(2 * time.Second); time.Now().Before(deadline); time.Sleep(2 * time.Millisecond) {
@@ -501,7 +537,7 @@ func main() {
 	rng := lib.NewRng(f.Seed)
 	out := lib.NewOut("C26", f)
 	out.Imports = "From Verif Require Import Model.Bungee.\n"
-	out.Rule = "dispatch layer: a pool of 40 proxy states of 1..3 servers and 1..4 players (10% without server, 2/3 modern connections), requester drawn from the players; sub-channel uniform over the 18 known ones plus unknown/empty names; player arguments known (any case) 70% / unknown 20% / empty 10%, server arguments known 60% / unknown 20% / ALL,ONLINE in several cases 20%; forward payloads well-formed 58%, with trailing bytes, negative int16 length, body or channel shorter than announced, or missing; texts plain, empty, JSON {\"text\":..} and invalid JSON; 20% of all requests cut at a random byte; 4% on a non-BungeeCord channel. adapter layer: well-formed Forward requests to a server / ALL / ONLINE through bungee.go over recording connections. distinct = distinct Coq term; non-trivial = at least one effect (or write) observed, or a panic"
+	out.Rule = "dispatch layer: a pool of 40 proxy states of 1..3 servers and 1..4 players (10% without server, 2/3 modern connections), requester drawn from the players; sub-channel uniform over the 18 known ones plus unknown/empty names; player arguments known (any case) 70% / unknown 20% / empty 10%, server arguments known 60% / unknown 20% / ALL,ONLINE in several cases 20%; forward payloads well-formed 58%, with trailing bytes, negative int16 length, body or channel shorter than announced, or missing; texts plain, empty, JSON {\"text\":..} and invalid JSON; 20% of all requests cut at a random byte; 4% on a non-BungeeCord channel. adapter layer: well-formed Forward requests to a server / ALL / ONLINE through bungee.go over recording connections. dispatch histories: 2..3 requests (3/4 Forward/ForwardToPlayer with equal or shrinking frames) through ONE responder, the slices handed to the fake Providers printed only after the last request. adapter two-request cases: Forward A then Forward B to the same target through bungee.go while every player connection blocks in WritePacket (channel-gated), released afterwards. distinct = distinct Coq term; non-trivial = at least one effect (or write) observed, or a panic"
 	// a pool of proxy states, defined once per shard file (parsing literals is what costs time in coqc)
 	type pooled struct {
 		st   *stateSt
@@ -557,7 +593,7 @@ func main() {
 		if q.hasTxt {
 			oracle = decodeOracle(q.sub, []string{q.text, ""})
 		}
-		term := lib.App("Check.C26.mk", stName, lib.Str(fw.req.name), oracle, lib.Str(channel), lib.Bytes(q.data), lib.Bool(handled), lib.List(rec.eff))
+		term := lib.App("Check.C26.mk", stName, lib.Str(fw.req.name), oracle, lib.Str(channel), lib.Bytes(q.data), lib.Bool(handled), lib.List(rec.terms(0, rec.count())))
 		desc := map[string]any{"layer": "dispatch", "sub": q.sub, "channel": channel, "data_hex": hex.EncodeToString(q.data), "requester": fw.req.name,
 			"requester_server": fw.req.server, "state": st.String(), "handled": handled,
 			"effects": rec.n, "panic": panicked}
@@ -565,7 +601,7 @@ func main() {
 		for k := range rec.n {
 			tags = append(tags, "effect="+k)
 		}
-		out.Add(term, desc, len(rec.eff) > 0, tags...)
+		out.Add(term, desc, rec.count() > 0, tags...)
 	}
 	m := f.Count(40)
 	for i := 0; i < m; i++ {
@@ -579,13 +615,104 @@ func main() {
 		pb.Write(body)
 		obs, nc, nb := "[]", 0, 0
 		if out.Wanted() {
-			obs, nc, nb = runAdapter(st, req, target, pb.Bytes())
+			obs, nc, nb = runAdapter(st, req, target, [][]byte{pb.Bytes()}, false)
 		}
 		term := lib.App("Check.C26.mkA", stName, lib.Str(st.players[req].name), lib.Str(target), lib.Bytes(pb.Bytes()), obs)
 		desc := map[string]any{"layer": "adapter", "target": target, "payload_hex": hex.EncodeToString(pb.Bytes()), "requester": st.players[req].name,
 			"requester_server": st.players[req].server, "state": st.String(),
 			"client_writes": nc, "backend_writes": nb}
 		out.Add(term, desc, nc+nb > 0, "layer=adapter", fmt.Sprintf("client_writes=%d", nc), fmt.Sprintf("backend_writes=%d", nb))
+	}
+	// dispatch histories: 2..3 requests through the SAME responder; slices printed after the last one
+	hn := f.Count(60)
+	for i := 0; i < hn; i++ {
+		r := rng.Fork()
+		st, req, stName := pick(r)
+		k := r.Range(2, 3)
+		rec := &recorder{n: map[string]int{}}
+		fw := &fakeWorld{st: st, req: &st.players[req], rec: rec}
+		resp := bungeecord.NewMessageResponder(&fakePlayer{fw, fw.req}, fw)
+		channel := r.PickS("BungeeCord", "bungeecord:main")
+		var datas [][]byte
+		var subsUsed []string
+		type span struct {
+			from, to int
+			handled  bool
+		}
+		var spans []span
+		blen := r.Pick(3, 12, 30)
+		for j := 0; j < k; j++ {
+			var data []byte
+			if r.Chance(3, 4) { // forwards with frames that fit the previous one's memory
+				b := new(bytes.Buffer)
+				sub := r.PickS("Forward", "Forward", "ForwardToPlayer")
+				utf(b, sub)
+				if sub == "Forward" {
+					utf(b, r.PickS("ALL", st.servers[r.Intn(len(st.servers))].name))
+				} else {
+					utf(b, st.players[r.Intn(len(st.players))].name)
+				}
+				utf(b, "MyChan")
+				body := r.Bytes(blen - j*r.Intn(2))
+				_ = util.WriteUint16(b, uint16(len(body)))
+				b.Write(body)
+				data = b.Bytes()
+				subsUsed = append(subsUsed, sub)
+			} else {
+				q := genRequest(r, st)
+				if q.hasTxt { // text sub-channels need an oracle: keep histories to the others
+					q = request{sub: "GetServers", data: append([]byte{0, 10}, []byte("GetServers")...)}
+				}
+				data = q.data
+				subsUsed = append(subsUsed, q.sub)
+			}
+			datas = append(datas, data)
+			from := rec.count()
+			handled := false
+			func() {
+				defer func() {
+					if x := recover(); x != nil {
+						handled = true
+						rec.add("panic", "EPanic")
+					}
+				}()
+				handled = resp.Process(&plugin.Message{Channel: channel, Data: append([]byte(nil), data...)})
+			}()
+			spans = append(spans, span{from, rec.count(), handled})
+		}
+		obs := make([]string, len(spans))
+		for j, sp := range spans {
+			obs[j] = lib.Pair(lib.Bool(sp.handled), lib.List(rec.terms(sp.from, sp.to)))
+		}
+		term := lib.App("Check.C26.mkH", stName, lib.Str(fw.req.name), "[]", lib.Str(channel), lib.ListOf(datas, lib.Bytes), lib.List(obs))
+		desc := map[string]any{"layer": "dispatch-history", "subs": subsUsed, "channel": channel, "requester": fw.req.name,
+			"data_hex": lib.ListOf(datas, func(d []byte) string { return hex.EncodeToString(d) }), "state": st.String(), "effects": rec.n}
+		out.Add(term, desc, rec.count() > 0, "layer=dispatch-history", fmt.Sprintf("history-requests=%d", k))
+	}
+	// adapter layer, two Forward requests while every player connection is blocked
+	an := f.Count(24)
+	for i := 0; i < an; i++ {
+		r := rng.Fork()
+		st, req, stName := pick(r)
+		target := r.PickS("ALL", "ONLINE", st.servers[r.Intn(len(st.servers))].name, st.servers[0].name)
+		mkPayload := func(n int) []byte {
+			pb := new(bytes.Buffer)
+			utf(pb, "MyChan")
+			body := r.Bytes(n)
+			_ = util.WriteUint16(pb, uint16(len(body)))
+			pb.Write(body)
+			return pb.Bytes()
+		}
+		n := r.Pick(4, 12, 30)
+		pa, pbb := mkPayload(n), mkPayload(n-r.Intn(3))
+		obs, nc, nb := "[]", 0, 0
+		if out.Wanted() {
+			obs, nc, nb = runAdapter(st, req, target, [][]byte{pa, pbb}, true)
+		}
+		term := lib.App("Check.C26.mkA2", stName, lib.Str(st.players[req].name), lib.Str(target), lib.Bytes(pa), lib.Bytes(pbb), obs)
+		desc := map[string]any{"layer": "adapter-two-requests", "target": target, "payload_a_hex": hex.EncodeToString(pa), "payload_b_hex": hex.EncodeToString(pbb),
+			"requester": st.players[req].name, "requester_server": st.players[req].server, "state": st.String(), "client_writes": nc, "backend_writes": nb}
+		out.Add(term, desc, nc+nb > 0, "layer=adapter-two-requests", fmt.Sprintf("client_writes=%d", nc), fmt.Sprintf("backend_writes=%d", nb))
 	}
 	out.Finish()
 }
